@@ -1,10 +1,10 @@
 #!/bin/bash
 # lead tool: ingest mutation agent output dir (<worktree>/out/<k>) as seeded/<PROP>-m<k>: confirm, copy, run the check, write meta.json
 # usage: seeded_ingest.sh <PROP> <worktree>
-prop="$1"; wt="$2"
+prop="$1"; wt="$2"; pre="${3:-m}"
 for k in 1 2; do
   src=$wt/out/$k; [ -f $src/patch.diff ] || continue
-  sid=$prop-m$k; dst=/verif/seeded/$sid; mkdir -p $dst
+  sid=$prop-$pre$k; dst=/verif/seeded/$sid; mkdir -p $dst
   cp $src/patch.diff $src/demo.py $src/notes.md $dst/ 2>/dev/null
   conf=$(/verif/seeded_confirm.sh $dst 2>/dev/null | tail -1)
   out=$(/verif/seeded_test.sh $prop $dst/patch.diff quick 2>&1)
@@ -24,4 +24,4 @@ json.dump(meta, open(os.path.join(d, "meta.json"), "w"), indent=1)
 print(sid, "confirmed:", conf, "| check exit:", rc, "|", summary)
 PY
 done
-git -C /repo worktree remove --force $wt
+[ "${SEEDED_KEEP_WT:-0}" = 1 ] || git -C /repo worktree remove --force $wt
